@@ -490,15 +490,39 @@ def pipelineMasked {π} [Inhabited π] [MaskVal π] (mf : List Nat → Option (L
   | none => none
   | some m => ((applyMask m k).toOption).map fun o => (o, m)
 
-/-! ### the multiplicative ACS sites of the data pipeline -/
+/-! ### the ACS sites of the data pipeline (`EstimateSensitivityMapModule.estimate_acs_image`, `EstimateBodyCoilImage`) -/
 
-/-- `kspace * acs_mask + 0.0` (`EstimateSensitivityMapModule.estimate_acs_image`, `EstimateBodyCoilImage`) for a
-0/1 mask entry: NaN (`fin 0`) for an infinite k-space entry under a zero mask entry -/
+/-- the k-space those sites hand to the backward operator: `T.apply_mask(kspace, acs_mask, return_mask=False)` (as
+repaired; `acsKspacePinned` is the former product form) -/
+def acsKspace (m : Tensor Int) (k : Tensor FVal) : Res (Tensor FVal) := applyMask m k
+
+/-- **pinned tree**: `kspace * acs_mask + 0.0` for a 0/1 mask entry: NaN (the ill-formed value `fin 0`) for an infinite
+k-space entry under a zero mask entry -/
 def mulPlusZero (mv : Int) (kv : FVal) : FVal :=
   ((FVal.mulInt mv kv).bind (FVal.add · .posZero)).getD (.fin 0)
 
-/-- the k-space those sites hand to the backward operator -/
-def acsKspace (m : Tensor Int) (k : Tensor FVal) : Option (Tensor FVal) := whereWith mulPlusZero m k
+def acsKspacePinned (m : Tensor Int) (k : Tensor FVal) : Option (Tensor FVal) := whereWith mulPlusZero m k
+
+/-! ### call histories on a persistent operator: a memoising masked operator -/
+
+/-- a masked operator that keeps its last result under a key computed from the arguments (what a `self._cache`
+attribute or a module-level slot would do); `key` is what the cache looks at -/
+structure Memo (A K R : Type) where
+  slot : Option (K × R)
+
+def Memo.call {A K R} [DecidableEq K] (key : A → K) (f : A → R) (s : Memo A K R) (a : A) : Memo A K R × R :=
+  match s.slot with
+  | some (k, r) => if k = key a then (s, r) else (⟨some (key a, f a)⟩, f a)
+  | none => (⟨some (key a, f a)⟩, f a)
+
+def Memo.run {A K R} [DecidableEq K] (key : A → K) (f : A → R) : Memo A K R → List A → List R
+  | _, [] => []
+  | s, a :: as => let (s', r) := Memo.call key f s a; r :: Memo.run key f s' as
+
+/-- a history of `apply_mask` calls on one persistent object, as the code is now: nothing but the arguments
+determines a result (the complete key) -/
+def maskHistory (calls : List (Tensor Int × Tensor FVal)) : List (Res (Tensor FVal)) :=
+  Memo.run (fun a => a) (fun a => applyMask a.1 a.2) ⟨none⟩ calls
 
 /-! ### structural facts of the functions that decide the property -/
 
@@ -535,18 +559,15 @@ def expectedFacts : List FuncFacts :=
 /-! ### masking sites outside `direct/nn` (data pipeline, SSL transforms, datasets) -/
 
 /-- accepted there: the verified `apply_mask` / `where` forms; products of masks with masks / comparisons (boolean
-algebra on masks, no k-space involved); and the two known multiplicative ACS sites (`kspace * acs_mask + 0.0`, see
-`acs_mul_current_violates`) — any other product of data with a mask is rejected -/
-def acsMulAllowed : List String :=
-  ["EstimateSensitivityMapModule.estimate_acs_image", "EstimateBodyCoilImage.__call__"]
-
+algebra on masks, no k-space involved); a weighting window applied to an operand that `apply_mask` has already masked
+(`T.apply_mask(kspace, acs_mask) * gaussian_mask`).  Any product of unmasked data with a mask is rejected (the two
+former `kspace * acs_mask + 0.0` sites were repaired, see `acs_mul_pinned_violates`). -/
 def Site.wfData (s : Site) : Bool :=
   match s.form with
   | .whereForm w => w.wf && s.zeroDtypeOf != ""
   | .applyMask _ => true
   | .operatorCall _ => true
-  | .flagged what =>
-    what == "mask algebra" || (what == "multiplication by the mask, + 0.0" && acsMulAllowed.contains s.func)
+  | .flagged what => what == "mask algebra" || what == "weighting of an already masked operand"
 
 /-- how many masking sites each covered function of `direct/nn` has (a site that disappears is a lost masking) -/
 def expectedSiteCounts : List (String × Nat) :=
